@@ -24,7 +24,7 @@ def signature(r):
         return "C13|table|report-content|" + e.get("r", "?")
     return "C13|table|" + str(ev)
 
-PMAP = {1: [101, 0], 2: [101, 1], 3: [102, 0]}
+PMAP = {1: [101, 0], 2: [101, 1], 3: [102, 3]}
 
 def project(beh, variant):
     """A behaviour of Subs.tla -> a schedule of the full-stack world."""
@@ -85,6 +85,15 @@ def made_e2e():
     out.append([E(3, 300), S(1, [[-1, -1]], events=True), E(2), W(500), E(7, 450), C(101, 1), Q])
     out.append([S(1, [[101, 0]], events=True, min=1), E(1, 10), E(9, 520), W(200), E(9, 520), {"op": "Lose", "n": 1}, E(2, 30), C(101, 0), Q])
     out.append([S(1, [[101, -1]], events=True), S(2, [[102, -1]]), E(12, 400), C(102, 0), W(1500), E(1, 900), Q])
+    # the list attribute (3): a report that consists of nothing but a list longer than a message, alone, twice in a row,
+    # next to scalars, primed, changed while the priming report is read, with a datagram lost
+    out.append([S(1, [[102, 3]]), C(102, 3), Q])
+    out.append([S(1, [[102, 3]]), C(102, 3), W(800), C(102, 3), W(100), C(102, 3), Q])
+    out.append([S(1, [[-1, -1]]), C(101, 3), W(1500), C(102, 3), C(101, 0), Q])
+    out.append([S(1, [[101, 3], [102, 3]], min=1), C(101, 3), C(102, 3), W(2500), C(101, 3), Q])
+    out.append([S(1, [[-1, -1]], change_mid=[102, 3]), Q])
+    out.append([S(1, [[101, -1]]), S(2, [[102, 3]]), C(102, 3), {"op": "Lose", "n": 1}, W(300), C(102, 3), C(101, 3), Q])
+    out.append([S(1, [[102, 3]], events=True), E(3, 400), C(102, 3), Q])
     # changes spread over several max intervals
     out.append([S(1, [[-1, -1]], max=3), W(50000), C(101, 2), W(50000), C(102, 2), Q])
     return out
